@@ -325,6 +325,43 @@ class Run:
         return ms
 
 
+    def race(self, rounds, goroutines=8, stage="race"):
+        """Real goroutines sharing compiled expressions under Go's race detector."""
+        binary = self.build(race=True)
+        self.nstage += 1
+        out = os.path.join(self.work, "%02d-race.json" % self.nstage)
+        p = subprocess.run([binary, "race", "-seed", str(self.seed), "-rounds", str(rounds), "-goroutines", str(goroutines),
+                            "-out", out], capture_output=True, text=True)
+        if p.returncode not in (0, 66):
+            raise ToolingError("race driver failed (%d): %s%s" % (p.returncode, p.stdout, p.stderr[-3000:]))
+        res = json.load(open(out)) if os.path.exists(out) else {"calls": 0, "mismatches": []}
+        reports = p.stderr.split("WARNING: DATA RACE")[1:]
+        ms = []
+        seen = set()
+        for rep in reports:
+            frames = re.findall(r"github\.com/antchfx/xpath\.([^\s(]+(?:\([^)]*\))?[^\s]*)\(\)\n\s+(\S+:\d+)", rep)
+            if not frames:
+                continue   # a race outside the package under test is not its defect
+            key = frames[0]
+            if key in seen:
+                continue
+            seen.add(key)
+            ms.append({"stage": stage, "flow": "B", "kind": "race", "expr": "data race at %s (%s)" % key, "ctx": 0,
+                       "fail": "data-race", "via": "go -race", "want": "no unsynchronised conflicting accesses",
+                       "got": {"report": rep[:1500]}, "case": {"frames": frames[:6]}})
+        for m in (res.get("mismatches") or []):
+            ms.append({"stage": stage, "flow": "B", "kind": "race", "expr": m["expr"], "ctx": m["ctx"], "fail": "differs-from-sequential",
+                       "via": m["op"], "want": m["want"], "got": {"concurrent": m["got"]}, "case": {"expr": m["expr"]}})
+        self.traces += 1
+        self.evaluations += res.get("calls", 0)
+        self.stages.append({"stage": stage, "flow": "B", "concurrent_calls": res.get("calls", 0), "race_reports": len(reports),
+                            "distinct_sites": len(seen), "result_mismatches": len(res.get("mismatches") or [])})
+        self.samples.append({"race_run": {k: res.get(k) for k in ("expressions", "rounds", "goroutines", "calls")}})
+        self.log("race: %s; %d race reports" % (p.stdout.strip(), len(reports)))
+        self.mismatches += ms
+        return ms
+
+
 # ----------------------------------------------------------------------
 def load_findings():
     path = os.path.join(VERIF, "known_findings.jsonl")
